@@ -28,7 +28,8 @@ def main(argv=None) -> int:
     args = ap.parse_args(argv)
     if args.cmd == "digests":
         import json
-        from . import selftest
+        from . import driver, selftest
+        driver.set_hash_seeds(args.seed, "quick")
         print(json.dumps(selftest.digests(args.ids.split(","), args.runs, args.jobs, args.seed)))
         return 0
 
@@ -40,6 +41,8 @@ def main(argv=None) -> int:
         jobs = int(os.environ.get("VERIF_JOBS", "16"))
         max_wall = float(os.environ.get("VERIF_MAX_WALL", "1500" if args.tier == "quick" else "14000"))
         spec = checks.get_spec(args.id)
+        from . import driver
+        driver.set_hash_seeds(seed, args.tier)
         return runner.run_check(spec, args.tier, seed, jobs, max_wall, write_evidence=not args.no_evidence,
                                 runs_override=args.runs)
     if args.cmd == "replay":
